@@ -380,7 +380,7 @@ def gen_cases(ctx, rng, tier):
     def add(line, kind, **kw):
         cases.append(dict(line=line, kind=kind, **kw))
 
-    n = 700 if tier == "quick" else 8000
+    n = 1500 if tier == "quick" else 60000
     # (1) templates of the C01/C10 grammar, without and with defaults
     for i in range(n):
         ed = rng.choice([2, 3, 4, 4, 5])
@@ -418,12 +418,18 @@ def gen_cases(ctx, rng, tier):
     # FLT defaults with many digits on high-precision elements, and 2 05 YYY text of every length class
     for d in [5001, 6001, 5011, 6011, 11021, 13155, 14044]:
         if d in T.B:
-            for _ in range(6 if tier == "quick" else 60):
+            for _ in range(6 if tier == "quick" else 300):
                 v = default_for(rng, T, d, shape="free")
                 add(case_line(4, [(d, [v])]), "T", ed=4, items=[(d, [v])], src="flt_precision")
     for y in (1, 3, 8, 40, 120, 200):
         v = str_value(rng, y, "full")
         add(case_line(4, [(205000 + y, [v]), (1001, [])]), "T", ed=4, items=[(205000 + y, [v]), (1001, [])], src="op205")
+    # the witnesses of the ..._refuted theorems and of the example of the partial theorem (TmplProof.v), replayed on the library
+    for items, ed in (([(1001, ["i71", "i72"]), (1002, [])], 4), ([(1001, ["i71", "i2001"]), (1002, [])], 4),
+                      ([(1015, [stok(b"ABC" + b" " * 17)])], 4), ([(1001, ["i-1"])], 4), ([(6001, [dtok(179.99999)])], 4),
+                      ([(12101, [dtok(273.15)])], 4), ([(1001, ["i71"]), (101000, []), (31001, ["i2"]), (12101, [dtok(273.25)]), (301001, [])], 3)):
+        if all(d in T.B or d in T.D or gen.F(d) == 1 for d, _ in items):
+            add(case_line(ed, items), "T", ed=ed, items=items, src="witness")
     # (3) templates of the sample messages
     for name, ed, descs in sample_templates():
         add(case_line(ed, [(d, []) for d in descs]), "T", ed=ed, items=[(d, []) for d in descs], src="sample")
@@ -431,7 +437,7 @@ def gen_cases(ctx, rng, tier):
             items = add_defaults(rng, T, descs, p_item=0.3)
             add(case_line(ed, items), "T", ed=ed, items=items, src="sample+defaults")
     # (4) texts: well-formed ones as a user writes them, and malformed ones
-    nx = 120 if tier == "quick" else 1500
+    nx = 250 if tier == "quick" else 8000
     for i in range(nx):
         ed = rng.choice([2, 3, 4, 5])
         tg = gen.TGen(rng, T, ed, ops=False, max_depth=rng.choice([1, 2, 3]), dseqs=dseqs)
@@ -478,21 +484,22 @@ def value_class(T, d, vals):
 
 
 def oracle_T(T, case, r):
-    """-> (failure text or None, set of classes of the defaults that did not come back exactly)"""
+    """-> list of (failure text, classes): every way in which the library's output contradicts the property, each with the
+    classes of recorded weaknesses of the text format that explain THIS failure (empty set: nothing explains it)"""
     O, L, C = r.get("O"), r.get("L"), r.get("C")
     h = r["head"]
     items = case["items"]
-    classes = set()
-    fail = None
+    fails = []
 
-    def bad(msg):
-        nonlocal fail
-        if fail is None:
-            fail = msg
+    def bad(msg, classes=()):
+        fails.append((msg, set(classes)))
 
     if O is None:
-        return "the harness could not list the original template", classes
-    # ---- copy
+        return [("the harness could not list the original template", set())]
+    if O["ed"] != case["ed"] or O["items"] != [(d, list(v)) for d, v in items]:
+        bad("the template bufr_create_template built holds edition %d, %s; it was given edition %d, %s" % (
+            O["ed"], " ".join(item_tok(d, v) for d, v in O["items"])[:200], case["ed"], " ".join(item_tok(d, v) for d, v in items)[:200]))
+    # ---- copy: nothing in the text format can excuse a wrong copy
     if C is None:
         bad("bufr_copy_template returned NULL")
     else:
@@ -514,57 +521,51 @@ def oracle_T(T, case, r):
         bad("bufr_save_template failed (%s)" % h.get("save"))
     structure_ok = L is not None and [d for d, _ in L["items"]] == [d for d, _ in O["items"]]
     if not structure_ok:
+        # only defaults that put line breaks or extra lines into the text can change the list of descriptors read back
+        sc = set()
         for d, vals in items:
             c = value_class(T, d, vals)
             if c == "multi_values":
-                classes.add(c)
-            elif c in ("string_default", "cross_type") and any(ch in bytes.fromhex(v[1:]) for v in vals if v[0] == "s" for ch in (10, 9, 44, 61)):
-                classes.add(c)
-    if L is None:
-        bad("the saved template is refused by bufr_load_template")
-        return fail, classes
-    if not structure_ok:
-        bad("the reloaded template has descriptors %s, the original %s" % ([d for d, _ in L["items"]][:12], [d for d, _ in O["items"]][:12]))
-        if h.get("cmpL") != "0":
-            bad("the reloaded template does not compare equal")
-        return fail, classes
+                sc.add(c)
+            elif c in ("string_default", "cross_type") and any(10 in bytes.fromhex(v[1:]) for v in vals if v[0] == "s"):
+                sc.add(c)
+        if L is None:
+            bad("the saved template is refused by bufr_load_template", sc)
+        else:
+            bad("the reloaded template has descriptors %s, the original %s" % ([d for d, _ in L["items"]][:12], [d for d, _ in O["items"]][:12]), sc)
+        return fails
     if h.get("cmpL") != "0":
         bad("the reloaded template does not compare equal to the original (bufr_compare_template = %s)" % h.get("cmpL"))
     if L["ed"] != O["ed"]:
         bad("the reloaded template has edition %d, the original %d" % (L["ed"], O["ed"]))
+    changed = set()          # classes of the defaults that did not come back as they were (value or C type)
     for (d, ov), (_, lv) in zip(O["items"], L["items"]):
         e = T.B.get(d)
         if e is None and gen.F(d) == 2 and gen.X(d) == 5:
             e = dict(kind="str", width=8 * gen.Y(d), scale=0, ref=0)
-        lv_eff = [v for v in lv]
-        same_exact = len(ov) == len(lv_eff) and all(exactly_same(e, a, b) for a, b in zip(ov, lv_eff))
+        cls = value_class(T, d, ov) or "no_default"
+        same_exact = len(ov) == len(lv) and all(exactly_same(e, a, b) for a, b in zip(ov, lv))
         if not same_exact:
-            classes.add(value_class(T, d, ov) or "no_default")
+            changed.add(cls)
+        elif any(a[0] != b[0] for a, b in zip(ov, lv) if a != "N" and b != "N"):
+            changed.add("retyped")        # the same number, but now held in the element's own C type
         # the property: same defaults as raw values under the element's encoding
-        if len(ov) != len(lv_eff) and not (all(tok_missing(v) and v[0] != "s" for v in ov) and all(tok_missing(v) for v in lv_eff) and e is not None and e["kind"] != "str"):
-            bad("%06d has %d default value(s) %s, the reloaded template %d %s" % (d, len(ov), ov[:4], len(lv), lv[:4]))
-        else:
-            for a, b in zip(ov, lv_eff):
+        all_missing = e is not None and e["kind"] != "str" and all(tok_missing(v) and v[0] != "s" for v in ov) and all(tok_missing(v) for v in lv)
+        if len(ov) != len(lv) and not all_missing:
+            bad("%06d has %d default value(s) %s, the reloaded template %d %s" % (d, len(ov), ov[:4], len(lv), lv[:4]), [cls])
+        elif len(ov) == len(lv):
+            for a, b in zip(ov, lv):
                 ra, rb = raw_under(e, a), raw_under(e, b)
                 if ra != rb:
-                    bad("the default value of %06d is %s (raw %s), after save and load it is %s (raw %s)" % (d, a, ra[1:] or "missing", b, rb[1:] or "missing"))
+                    bad("the default value of %06d is %s (raw %s), after save and load it is %s (raw %s)" % (d, a, ra[1:] or "missing", b, rb[1:] or "missing"), [cls])
                     break
     GO, GL = r.get("GO"), r.get("GL")
     if GL is None or [d for d, _ in GL] != [d for d, _ in GO]:
         bad("the reloaded template expands differently from the original")
     if r.get("ML") != r.get("MO"):
-        bad("a dataset made from the reloaded template encodes to different bytes than one made from the original (%s... vs %s...)" % (str(r.get("ML"))[-40:], str(r.get("MO"))[-40:]))
-    return fail, classes
-
-
-FINDING_TEXT = {
-    "multi_values": "several default values on one descriptor are written as 'VALUES=' with a newline after each value: the loader knows only 'VALUE=' and reads the following lines as descriptors",
-    "string_default": "a character default is written between quotes that the loader keeps as part of the value (and it is cut at , = tab newline)",
-    "int_missing": "an integer default of -1 (missing) is written as MSNG and read back with atoi as 0",
-    "float_text": "a FLT64 default is written with %f / %.14E and read back with strtof: it comes back with float precision (6 decimals at most)",
-    "cross_type": "a default whose value type is not the element's own is re-typed from its text by atoi/atol/strtof/copying",
-    "save_overflow": "bufr_save_template formats each default into a 256-byte stack buffer: a character default of 254 bytes or more overflows it",
-}
+        bad("a dataset made from the reloaded template encodes to different bytes than one made from the original (%s... vs %s...)" % (
+            str(r.get("ML"))[-40:], str(r.get("MO"))[-40:]), changed)
+    return fails
 
 
 def run(rep, tier, seed, replay=None):
@@ -611,8 +612,10 @@ def run(rep, tier, seed, replay=None):
     couts = []
     crashed = {}
     pos = 0
+    allerr = ""
     while pos < len(lines):
         rc, out, err = vlib.run_cases(exe, "\n".join(lines[pos:]) + "\n", timeout=3000, env=env)
+        allerr += err
         out = out[:-1] if out and out[-1] == "" else out
         out = out[:len(lines) - pos]
         couts += out
@@ -631,6 +634,7 @@ def run(rep, tier, seed, replay=None):
     mouts = mo.split("\n")
     feat = collections.Counter()
     nviol = 0
+    ncorr = 0
     nfind = collections.Counter()
     for i, c in enumerate(cases):
         co = couts[i] if i < len(couts) else "<no output>"
@@ -655,8 +659,11 @@ def run(rep, tier, seed, replay=None):
             r = parse_c(co)
             if r["head"].get("create") != "1":
                 feat["create_refused"] += 1
-                if c["src"].startswith(("grid", "editions", "grammar")) and not any(v for _, v in c["items"] if False):
-                    pass
+                if not c["src"].startswith("sample"):       # samples may use local descriptors that are in no shipped table
+                    rep.violation("C18: bufr_create_template refuses a well-formed template, nothing can be saved  [case: %s]" % key[:400], robj)
+                    nviol += 1
+                    if nviol > 12:
+                        break
                 continue
             for d, vals in c["items"]:
                 if vals:
@@ -666,18 +673,22 @@ def run(rep, tier, seed, replay=None):
                 feat["no_defaults"] += 1
             if str(r.get("MO", "")).startswith("rc"):
                 feat["encode_failed"] += 1
-            fail, classes = oracle_T(T, c, r)
-            if fail:
-                known = classes and all(k in kf for k in classes)
-                if known:
+            stop = False
+            verdicts = oracle_T(T, c, r)
+            feat["oracle_holds" if not verdicts else "oracle_fails"] += 1
+            for fail, classes in verdicts:
+                if classes and all(k in kf for k in classes):
                     for k in classes:
                         rep.finding(kf[k]["what"]); nfind[k] += 1
                 else:
                     rep.violation("C18: %s  [case: %s]" % (fail, key[:400]), robj)
                     nviol += 1
-                    if nviol > 12:
-                        break
-                    continue
+                    stop = True
+                    break
+            if stop:
+                if nviol > 12:
+                    break
+                continue
         else:
             r = parse_c(co)
             loaded = r["head"].get("load") == "1"
@@ -701,15 +712,19 @@ def run(rep, tier, seed, replay=None):
                     nviol += 1
                     continue
         # ---- correspondence with the model
-        if canon_c(co) != mline and not os.environ.get("C18_NO_MODEL"):
+        if canon_c(co) != mline and ncorr < 3:
+            ncorr += 1
             cc = canon_c(co)
             j = next((k for k, (a, b) in enumerate(zip(cc, mline)) if a != b), min(len(cc), len(mline)))
             rep.violation("C18: correspondence Tmpl.v <-> bufr_template.c broken (the property oracle accepts the library's behaviour): at column %d library '%s' model '%s'  [case: %s]" % (
                 j, cc[max(0, j - 30):j + 50], mline[max(0, j - 30):j + 50], key[:300]),
                 dict(robj, text_format=fmt, correspondence="Tmpl(2).save_text/load_text/copy/tcompare/gexpand vs bufr_save_template/bufr_load_template/bufr_copy_template/bufr_compare_template"), no_input=True)
-            nviol += 1
         if nviol > 12:
             break
+    ub = sorted({l.strip()[:200] for l in allerr.split("\n") if "runtime error" in l and ("bufr_template.c" in l or "bufr_value.c" in l)})
+    if ub:
+        rep.violation("C18: undefined behaviour reported by the sanitizer in the template code: %s" % " | ".join(ub[:3]), {"kind": "T", "stderr": ub[:20]}, no_input=True)
+    rep.violations.sort(key=lambda v: bool(v[2]))        # failing inputs first, broken correspondences after them
     if not proved and not rep.violations:
         rep.violation("C18: proof obligations no longer check and the correspondence run found no failing input", getattr(rep, "proof_broken", {}), no_input=True)
     feat.update({"finding_" + k: v for k, v in nfind.items()})
